@@ -33,7 +33,7 @@ func init() {
 		MinDistinct: floor(15000, 200000),
 		RequiredCells: func(string) []string {
 			return []string{"roundtrip/constructed", "roundtrip/dagcbor", "roundtrip/dagjson", "roundtrip/delegation", "roundtrip/invocation", "roundtrip/string", "roundtrip/bytes",
-				"tamper/bitflip-nonce", "tamper/bitflip-mac", "tamper/bitflip-body", "tamper/truncate", "wrong-key", "plaintext-absent", "fresh-nonce", "entropy-fault", "badkey/nil", "badkey/size", "badkey/zero", "len=0", "len=1024"}
+				"tamper/bitflip-nonce", "tamper/bitflip-mac", "tamper/bitflip-body", "tamper/truncate", "wrong-key", "plaintext-absent", "fresh-nonce", "entropy-fault", "never-encrypted", "badkey/nil", "badkey/size", "badkey/zero", "len=0", "len=1024"}
 		},
 	})
 }
@@ -266,6 +266,28 @@ func runC19(w *mon.W) {
 						}
 					}
 					tryTampered("extend", len(stored), append(append([]byte{}, stored...), 0))
+				}
+			}
+		}
+	}
+
+	// ---- values that were never encrypted (plain bytes of every length 0..60, strings,
+	// other kinds) must not come back as data from the decrypting getters
+	{
+		key := gen.Bytes(r, 32)
+		for ln := 0; ln <= 60; ln++ {
+			m := meta.NewMeta()
+			_ = m.Add("b", gen.Bytes(r, ln))
+			_ = m.Add("s", string(gen.Bytes(r, ln)))
+			_ = m.Add("i", ln)
+			for _, k := range []string{"b", "s", "i", "absent"} {
+				got, err := m.GetEncryptedBytes(k, key)
+				_, err2 := m.GetEncryptedString(k, key)
+				w.Eval(2)
+				w.Cover("never-encrypted")
+				w.Distinct("never-encrypted", ln, k)
+				if err == nil || err2 == nil {
+					w.Violate("never-encrypted-value-decrypts/"+k, fmt.Sprintf("GetEncrypted* returned data (%d bytes) without error for a stored value that was never encrypted (kind %s, length %d)", len(got), k, ln), map[string]any{"kind": k, "len": ln, "key": mon.Hex(key)})
 				}
 			}
 		}
